@@ -428,6 +428,45 @@ func checkVersionMap(r *core.Run, p *core.Program, a *analysis, g *Grammar) {
 	}
 	r.Floor("C27.version-map", "decoder OnVersion sites", sites, 2)
 
+	// the CBE version field is one ULEB128 number: the reader must consume it with exactly one ULEB128 read and
+	// nothing else (a second/partial read would mis-read multi-byte versions such as 0x85 0x01 as version 1)
+	if f := findFn(p, "cbe", "Reader.ReadVersion"); f == nil {
+		r.Undecided("C27.version-map", "cbe.Reader.ReadVersion")
+	} else {
+		reads := 0
+		other := ""
+		inspectCalls(f.Pkg.TypesInfo, f.Decl.Body, func(call *ast.CallExpr, cal *types.Func) {
+			if cal == nil {
+				return
+			}
+			if rn := recvNamed(cal); rn != nil && rn.Obj().Name() == "Reader" {
+				if cal.Name() == "readSmallULEB128" {
+					reads++
+				} else {
+					other = cal.Name()
+				}
+			}
+			if cal.Name() == "Read" {
+				other = "Read"
+			}
+		})
+		r.Check("C27.version-map", "cbe.Reader.ReadVersion|single ULEB128 read", f.Decl.Pos(), reads == 1 && other == "",
+			fmt.Sprintf("the version field must be consumed by exactly one ULEB128 read; found %d ULEB128 reads and an additional %q: multi-byte version numbers are mis-read and wrongly accepted", reads, other))
+	}
+	// the CTE version digits are parsed from the header text without its letter: versionStr[1:]
+	if f := findFn(p, "cte", "cteListener.ExitVersion"); f != nil {
+		okSlice := false
+		ast.Inspect(f.Decl.Body, func(n ast.Node) bool {
+			if sl, ok := n.(*ast.SliceExpr); ok && sl.Low != nil && sl.High == nil {
+				if k, isC := constInt(f.Pkg.TypesInfo, sl.Low); isC && k == 1 {
+					okSlice = true
+				}
+			}
+			return true
+		})
+		r.Check("C27.version-map", "cte.cteListener.ExitVersion|skips exactly the header letter", f.Decl.Pos(), okSlice, "the version number must be parsed from the header text after exactly one header letter")
+	}
+
 	// validator: VersionRule.OnVersion rejects != expected; expected assigned from the constant only
 	rules := p.Pkg("rules")
 	vr := findFn(p, "rules", "VersionRule.OnVersion")
